@@ -283,13 +283,27 @@ impl CostModel {
                         *index,
                         String::from(Self::NETWORK_RATES),
                     ))?;
+            // a rate that serde cannot write (a Combined rate in the internally tagged form, an
+            // edge-pair lookup with entries as a JSON object) is an error: json![..] unwraps
+            let veh_rate_json = serde_json::to_value(veh_rate).map_err(|e| {
+                CostModelError::BuildError(format!(
+                    "failure serializing vehicle rate for {}: {}",
+                    name, e
+                ))
+            })?;
+            let net_rate_json = serde_json::to_value(net_rate).map_err(|e| {
+                CostModelError::BuildError(format!(
+                    "failure serializing network rate for {}: {}",
+                    name, e
+                ))
+            })?;
             result.insert(
                 name.clone(),
                 json![{
                     Self::FEATURE: json![name],
                     Self::WEIGHT: json![weight],
-                    Self::VEHICLE_RATE: json![veh_rate],
-                    Self::NETWORK_RATE: json![net_rate],
+                    Self::VEHICLE_RATE: veh_rate_json,
+                    Self::NETWORK_RATE: net_rate_json,
                 }],
             );
         }
